@@ -6,6 +6,30 @@ BASE = "cd /repo && /venv/bin/python -m pytest -ra -q -p no:cacheprovider --time
 
 # pid -> (technique, level text, level note (undecided residue / trusted base), design ref)
 CHECKS = {
+ 'C12': ("def-use identity + escape/taint analysis over `with` blocks + acquire/release pairing (AST/CFG)",
+         "static analysis: the index/value reach NumPy unmodified (def-use identity in __getitem__/__setitem__); a taint analysis over every with-block on a map-yielding context manager shows no view of the memory map leaves its context except through a copy; the opener's finally closes map and file and resets the cache on every exit; memmap-only attributes are guarded; the write gate dominates the store; the public contexts forward the mode verbatim. Every block and exit of the package is covered, not a sample of index expressions.",
+         "decides the copy/release/delegation discipline, not NumPy's indexing semantics, msync durability or descriptor leaks under interleavings (C19). Trusted: the view/copy classification table of NumPy operations.",
+         "DESIGN.md section 4 C12"),
+ 'C13': ("sibling agreement + constant-folded guard profiles + CFG edge-avoidance reachability + unlink-belief rule",
+         "static analysis: every write of metadata.json is guarded by tests that constant-fold to 'dictionary non-empty' and by nothing else (every path that skips the write takes the 'empty' edge); unlink is locally guarded or dominated by an operation proving non-emptiness; no cache; accessors reach the reader; json.dumps precedes the truncating open; verbatim argument forwarding; encoder branches.",
+         "decides the persistence discipline, not JSON round-trip equality of values. Trusted: dict.pop/popitem KeyError semantics, json module semantics.",
+         "DESIGN.md section 4 C13"),
+ 'C16': ("who-may-touch over the primitive-effect table with symbolic path roles + overwrite-gate dominance (CFG, call graph)",
+         "static analysis: the complete list of unlink/rmdir/rmtree/rename/copytree sites of the package is classified by the symbolic role of the target path against a closed set of owners; listing-driven deletion, swallowed deletion failures, effects before the non-array refusal, creators' effects not dominated by an overwrite gate, non-verbatim overwrite forwarding and non-exclusive archive creation are each decided for all paths.",
+         "decides ownership and gate discipline, not byte-identity snapshots or OS behaviour on exotic directory entries. Trusted: primitive-effect table; Path.rmdir refuses non-empty directories; tarfile 'x:' is exclusive.",
+         "DESIGN.md section 4 C16"),
+ 'C17': ("ordering / strictness / ownership rules over CFGs and def-use (must-precede, who-may-write the data file, count provenance)",
+         "static analysis of the facts that make every in-between on-disk state rejected at open or legitimate: strict, exact, unavoidable size check before the first map; closed set of data-file writers/resizers; committed counts derived from appender returns; ragged two-file commit order; whole-file rewrites of pre-serialised text; readers never default on an unparsable file.",
+         "decides orderings and strictness only; crash points are not enumerated and torn writes are not synthesised. Trusted: a torn JSON write is unparsable.",
+         "DESIGN.md section 4 C17"),
+ 'C18': ("validator-dominance (interprocedural gate analysis per descriptor field) + single-reader who-may-read + size-check strictness",
+         "static analysis: for each field class of the descriptor a raising test on the stored field itself lies on every normal path through the (role-inferred) descriptor reader; no handler swallows open/parse errors; the reader is the single consumer; the size check is strict, exact, unavoidable and precedes the first map; delete/truncate by path refuse before any effect; darr.open rejects unknown kinds.",
+         "decides presence/placement/strictness of validators, not completeness over every corruption (negative or boolean extents are left to the size check).",
+         "DESIGN.md section 4 C18"),
+ 'C20': ("complete-mediation analysis (guard dominance + def-use identity of the checked and used name) + constant-folded mode classification + normalisation symmetry",
+         "static analysis: every public DataDir mutator guards each name it touches, with the same value, on all paths before the use (checking loop completes before list deletion); the guard compares symmetrically normalised paths with containment; its mode condition is constant-folded over all write-capable open modes; private writers keep overwrite gates and are only called with Darr's constant names; the protected set contains every file-name constant.",
+         "decides mediation and name-equivalence shape, not round-trip equality of user files or spellings that need the OS to resolve differently (case-insensitive file systems).",
+         "DESIGN.md section 4 C20"),
  'C11': ("gate-dominance over call graph + statement CFGs (AST), def-use of the mode into handles",
          "static analysis: every public mutating entry point of Array/RaggedArray/MetaData is computed from the resolved call graph; for every reachable file-system effect the CFGs along the call chain are searched for a gate-free path; the writeable-flag gate's soundness, mode propagation to sub-handles, constant 'r+' overrides and defaults are decided as separate obligations. All paths of all entry points are covered, which the five sampled cells of the test matrix cannot give.",
          "decides the gate discipline, not behaviour: byte-identity of the directory after a rejected call and success after switching to 'r+' are not decided. Trusted: primitive-effect table; that writes through handles opened with the handle's mode are refused by the OS/NumPy.",
